@@ -1117,7 +1117,13 @@ func run(c *vh.Ctx) {
 		"constants, unset, NaN, Inf) × six operators × eight syntactic forms; non-trivial = an input-derived operand is involved. (D) CONVFMT/OFMT × numbers; FILENAME. " +
 		"(E) histories: 2–5 records of 1–5 fields from a pool where string and numeric order differ (10 9 1e1 +5 010 …), FS blank or comma, after the probe of each record one of ~30 operations " +
 		"(assign $k/$0/NF, grow/shrink, sub/gsub, ++, getline into $k/$0/NF/var, plain getline then probe); every field of every FRESH record must compare by its own text, incl. records byte-identical to the previous record / to its rebuilt $0 (OFS = FS and ≠ FS) / to an assigned $0; non-trivial = an operation precedes a later record. " +
-		"(F) reuse: 2–4 Execute calls on one Interpreter, CONVFMT/OFMT (9 formats) set in BEGIN / action / Vars, ResetVars or not between runs; conversions and reads of CONVFMT/OFMT in every run vs the tracked state; non-trivial = a later run depends on an earlier one or on ResetVars.")
+		"(F) reuse: 2–4 Execute calls on one Interpreter, CONVFMT/OFMT (9 formats) set in BEGIN / action / Vars, ResetVars or not between runs; conversions and reads of CONVFMT/OFMT in every run vs the tracked state; non-trivial = a later run depends on an earlier one or on ResetVars. " +
+		"(G) failed operations: target (global, function local, global/local array element with constant / variable / multi-dimensional subscript, $k, $0, 13 special variables) × what it held " +
+		"(unset, input-derived text through Vars / getline / split / ENVIRON / copy, number, string; 36 texts) × ~33 operation classes that fail, find nothing or do not happen " +
+		"(getline from a missing file / directory / empty name / empty file / file at its end; cmd | getline from a silent, unknown, exhausted command or with a shell that cannot start; " +
+		"plain getline at the end of input / with an unopenable next ARGV file / a directory / a failing reader; split of nothing; sub/gsub without match; failing match; for-in over nothing; " +
+		"unreached assignments; read-only uses; copies; delete) and their succeeding twins as positive controls × BEGIN / first record / END × inline / in a function × probed before or not; " +
+		"16 comparison/truth probes + v+0 + v \"\" against the reference typing, and before = after when nothing is stored; non-trivial = the operation must store nothing.")
 	// A
 	checkStrings(c, corpusStrings, "corpus")
 	var all []string
@@ -1137,6 +1143,8 @@ func run(c *vh.Ctx) {
 	checkHistory(c)
 	// F
 	checkReuse(c)
+	// G
+	checkFailOps(c)
 	keys := []string{}
 	for _, k := range alphabet {
 		keys = append(keys, strconv.Quote(k))
